@@ -35,6 +35,12 @@ def classify(L, R):
     return None if grey else True
 
 
+def ill_conditioned(terms):
+    """coefficients spread over at least five orders of magnitude (the threshold C07 uses)"""
+    mags = [abs(v) for t in terms for v in t[0].values() if v != 0]
+    return bool(mags) and max(mags) / min(mags) >= 1e5
+
+
 @st.composite
 def _pair(draw):
     nv = draw(st.integers(1, 4))
@@ -42,9 +48,26 @@ def _pair(draw):
     w = draw(gens.witness_s(pool))
     cls = draw(st.sampled_from(["identical", "sublist", "weakened", "farkas", "scaled", "separated", "unrelated",
                                 "unbounded", "infeasible-left", "infeasible-right", "empty-right", "empty-left",
-                                "equal-bounds", "both-infeasible", "separated-large-constant", "farkas-chain"]))
+                                "equal-bounds", "both-infeasible", "separated-large-constant", "farkas-chain", "lp-hard"]))
     L = draw(gens.termlist_s(pool, w, 1, 5))
-    if cls == "identical":
+    if cls == "lp-hard":
+        # a mined, satisfiable, badly scaled system on which the solver's first answer is not optimal, against one of its rows,
+        # itself or a sub-list (must be True), or against a row pushed beyond the witness (must be False)
+        L, w, row = draw(gens.lp_hard_s(("refines", "simplify")))
+        pool = sorted(w)
+        how = draw(st.sampled_from(["row", "row", "self", "sublist", "beyond"]))
+        k = row if row is not None else draw(st.integers(0, len(L) - 1))
+        if how == "row":
+            R = [[dict(L[k][0]), L[k][1]]]
+        elif how == "self":
+            R = [[dict(t[0]), t[1]] for t in L]
+        elif how == "sublist":
+            R = [[dict(t[0]), t[1]] for t in L if draw(st.booleans())] or [[dict(L[0][0]), L[0][1]]]
+        else:
+            lhs = gens.dot(L[k][0], w)
+            R = [[dict(L[k][0]), float(lhs - max(1.0, abs(lhs)) * 0.01 - 1.0)]]
+        cls += "/" + how
+    elif cls == "identical":
         R = list(draw(st.permutations(L)))
     elif cls == "sublist":
         R = [t for t in L if draw(st.booleans())] or L[:1]
@@ -104,11 +127,18 @@ def _pair(draw):
         big = draw(st.sampled_from([2e4, 1e5, 1e6, 5e5]))
         L = [[{k: -v for k, v in r[0].items()}, -(r[1] + gap)], [dict(r[0]), r[1] + gap + 1.0],
              [{draw(st.sampled_from(pool)): draw(st.sampled_from([1.0, -1.0]))}, big]]
-        if draw(st.booleans()):
+        variant = draw(st.integers(0, 2))
+        if variant == 1:
             # ... or on the right: a loose, heavily scaled copy of the violated row (implied by the left side)
             L = L[:2]
             kf = big / 4.0
             R = R + [[{k: v * kf for k, v in r[0].items()}, (r[1] + gap + 3.0) * kf]]
+        elif variant == 2:
+            # ... or the violated right-hand row itself has a huge negative constant (the witness of the left side misses it by far)
+            L = draw(gens.termlist_s(pool, w, 1, 3))
+            r2 = draw(gens.term_s(pool, w))
+            R = [[dict(r2[0]), float(r2[1] - big * draw(st.sampled_from([1, 2, 10, 50])))]]
+            cls += "/right"
     elif cls == "unrelated":
         R = draw(gens.termlist_s(pool, w, 1, 4))
     elif cls == "unbounded":
@@ -271,7 +301,8 @@ def run_case(case):
             labels.append("primed:" + case["prime"])
         st_, got = env.call("termlist.refines", (lambda: tl.refines(tr)) if case["via"] == "refines" else (lambda: tl <= tr))
         if st_ == "refused":
-            return {"viol": {"what": "termlist refines raised %r" % got, "sig": {"kind": "refines-raised", "type": type(got).__name__}, "detail": {}},
+            return {"viol": {"what": "termlist refines raised %r" % got,
+                             "sig": {"kind": "refines-raised", "type": type(got).__name__, "ill_conditioned": ill_conditioned(L + R)}, "detail": {}},
                     "nontrivial": False, "labels": labels}
         exp = classify(L, R)
         nvars = len({n for t in L + R for n in t[0]})
